@@ -222,6 +222,8 @@ class TransformationPerformer:
         transformation_inst.subgraph_id,
         trans_info,
     )
+    if not trans_info.num_ops_added:
+      return  # No operator was inserted, operator positions are unchanged.
     first_consumer = min(instruction.consumers)
     if first_consumer == -1:
       # Inserted right after the producer: every later operator is shifted.
